@@ -94,3 +94,31 @@ def open_cbin(path, n_threads=1, cache_size=None):
     r = mtscomp.Reader(**kw)
     r.open(path)
     return r
+
+
+def write_cbin_irregular(d, A, sample_rate, lens, stem='irr'):
+    """A valid compressed file whose chunks have the given (unequal) lengths: each chunk is an independent stream and the
+    .ch file lists explicit bounds and offsets, so pieces compressed one by one are simply laid end to end."""
+    import json
+    assert sum(lens) == A.shape[0]
+    blob, bounds, offsets, meta0 = b'', [0], [0], None
+    i = 0
+    for k, n in enumerate(lens):
+        p = write_cbin(d, A[i:i + n], sample_rate, n, stem='%s_piece%d' % (stem, k))
+        m = json.loads(Path(str(p)[:-5] + '.ch').read_text())
+        assert m['chunk_bounds'] == [0, n], m['chunk_bounds']
+        data = p.read_bytes()
+        blob += data
+        bounds.append(bounds[-1] + n)
+        offsets.append(offsets[-1] + len(data))
+        meta0 = meta0 or m
+        os.remove(p)
+        os.remove(str(p)[:-5] + '.ch')
+        i += n
+    meta0['chunk_bounds'], meta0['chunk_offsets'] = bounds, offsets
+    for key in ('sha1_compressed', 'sha1_uncompressed'):
+        meta0[key] = None
+    out = Path(d) / (stem + '.cbin')
+    out.write_bytes(blob)
+    (Path(d) / (stem + '.ch')).write_text(json.dumps(meta0, indent=2))
+    return out
